@@ -4,6 +4,7 @@ import (
 	"fmt"
 	"go/token"
 	"go/types"
+	"sort"
 	"strings"
 
 	"golang.org/x/tools/go/ssa"
@@ -1411,4 +1412,33 @@ func checkCodecNoUnsafe(w *core.World, r *core.Report, rule string) {
 			"the codec package imports unsafe: a decoded symbol or selector built with unsafe.String is a view of the caller's bytecode buffer and changes when that buffer is reused - decode(encode(x)) is x only until then")
 	}
 	_ = n
+}
+
+// checkHookKeepsPosition (C07 R9): what an engine does when it is initialised happens once on a
+// long-lived engine and on every request when engines are created per request, so it must leave
+// the persisted position alone. The pre-VM hook (first function) must not move the state: a
+// descent into a scratch node and the ascent back clear the page index (C04 R2: Down and Up store
+// SizeIdx = 0), which a per-request engine then does before every input.
+func checkHookKeepsPosition(w *core.World, r *core.Report, rule string) {
+	roles := resolveEngineRoles(w)
+	hook := roles.PreVmHook
+	if hook == nil {
+		r.Undecided(rule, "engine pre-VM hook", token.NoPos, "role not resolved")
+		return
+	}
+	r.Touch(core.QName(hook))
+	var movers []string
+	var pos token.Pos
+	for _, c := range core.Calls(hook) {
+		switch core.CallName(c) {
+		case stDown, stUp, stNext, stPrev, "state.(*State).Restart":
+			movers = append(movers, core.CallName(c)[len("state.(*State)."):])
+			if pos == token.NoPos {
+				pos = c.Pos()
+			}
+		}
+	}
+	sort.Strings(movers)
+	r.Check(len(movers) == 0, rule, "engine pre-VM hook: leaves the page index untouched", pos, "no State mover is called",
+		fmt.Sprintf("the hook that runs at every engine initialisation calls %v, which clear the page index: a session served by one engine per request loses its page before each input (it cannot browse past page 1), a long-lived engine keeps it", movers))
 }
